@@ -260,6 +260,9 @@ def main(prop, check_module, cases, tier, seed, describe, symbolic=True, deadlin
         % (prop, tier, len(cases), agg["paths"], agg["unsat"], agg["sat"], agg["unknown"], agg["boundary_paths"],
            agg["solver_s"], wall)
     )
+    slow = sorted(((r.get("wall_s", 0), cases[i].get("name", str(i)) if isinstance(cases[i], dict) else str(i))
+                   for i, r in enumerate(results) if r), reverse=True)[:3]
+    print("slowest cases: " + ", ".join("%s %.1fs" % (n, w) for w, n in slow))
     if violations:
         return 1
     if harness_errors or inconclusive or timed_out:
